@@ -120,7 +120,7 @@ def renames(F, crate, expect):
     for name, adt in crate.adts.items():
         if name not in spec:
             continue
-        cur = [fl["name"] for v in adt.get("variants", []) for fl in v.get("fields", []) if not fl["name"].isdigit()]
+        cur = [fl["name"] for v in adt.get("variants", []) for fl in v.get("fields", [])]
         old = spec[name]
         if len(cur) != len(old) or cur == old:
             continue
